@@ -81,7 +81,7 @@ def model_proj(s):
         'hid': sorted(n for n in s['hid'] if res.get(n, 'absent') != 'absent'), 'proc': sorted(s['proc']),
         'hidp': sorted(n for n in s['hidp'] if n in s['proc']),
         'sw': {k: v for k, v in s['sw'].items() if v != '-'},
-        'active': sorted(tuple(x) for x in s['active']), 'started': sorted(s['started']),
+        'active': sorted(tuple(x) for x in s['active']),
         'addl': sorted(k for k, v in s['addl'].items() if v != ['-']),
         'conds': {c: [nm(i) for i in w] for c, w in s['conds'].items() if w},
         'evw': {c: [nm(i) for i in w] for c, w in s['evw'].items() if w},
@@ -121,7 +121,7 @@ def real_proj(ex):
         else:
             done = 'value' if main.result().error is None else 'error'
     if mgr is None:
-        return {'res': {}, 'hid': [], 'proc': [], 'hidp': [], 'sw': {}, 'active': [], 'started': [], 'addl': [], 'conds': {},
+        return {'res': {}, 'hid': [], 'proc': [], 'hidp': [], 'sw': {}, 'active': [], 'addl': [], 'conds': {},
                 'evw': {}, 'ev': [], 'ready': [tname(getattr(o, 'get_name', lambda: '?')()) for o in loop.ready_owners()],
                 'gates': [], 'timers': 0, 'done': done}
     stg = mgr._node_storage
@@ -165,7 +165,6 @@ def real_proj(ex):
         ready.append(tname(o.get_name()) if isinstance(o, asyncio.Task) else 'timer')
     gates = sorted((g.info or (0, '?'))[1] for g in loop.pending_gates())
     return {'res': res, 'hid': hid, 'proc': proc, 'hidp': hidp, 'sw': sw, 'active': [tuple(a) for a in active],
-            'started': sorted(short(x) for x in mgr._started_oneof_children),
             'addl': sorted(short(k) for k in mgr._additional_data),
             'conds': conds, 'evw': evw, 'ev': sorted(ev), 'ready': ready, 'gates': gates,
             'timers': len(loop.pending_timers()), 'done': done}
